@@ -150,99 +150,137 @@ def drop_empty_defaults(doc: Any) -> Any:
 # ---------------------------------------------------------------------------------------------
 
 
-def gate_obligations(run: Run) -> Tuple[int, int, Dict[str, Any]]:
-    """Every model file is validated against a schema that constrains the root, and appended, before create_lsp_model;
-    the plugin runs after; no exit from the loop body skips a file."""
-    src = open(os.path.join(REPO, MAIN_REL), encoding="utf-8").read()
-    tree = ast.parse(src)
-    main = next((n for n in tree.body if isinstance(n, ast.FunctionDef) and n.name == "main"), None)
-    n = ok = 0
+def gate_obligations(run: Run, stats) -> Tuple[int, int, Dict[str, Any]]:
+    """The gate as a contract on main() (contracts/gate.py): on every path, every plugin run / write happens after every model file has
+    been validated, and create_lsp_model receives all documents in order.  Returns (#obligations, #discharged, info)."""
+    from contracts import gate as gate_c
+
     info: Dict[str, Any] = {}
-
-    def ob(cond, key, what, **detail):
-        nonlocal n, ok
-        n += 1
-        if cond:
-            ok += 1
-        else:
-            run.violation(key, what, detail, False)
-
-    if main is None:
-        run.undecide("generator/__main__.py has no main()")
+    # the expression main() hands to validate as the schema (evaluated natively by the caller)
+    try:
+        tree = ast.parse(open(os.path.join(REPO, MAIN_REL), encoding="utf-8").read())
+        vcalls = [x for x in ast.walk(tree) if isinstance(x, ast.Call) and ast.unparse(x.func).split(".")[-1] == "validate"]
+        if vcalls and len(vcalls[0].args) > 1:
+            info["schema_arg"] = ast.unparse(vcalls[0].args[1])
+    except (OSError, SyntaxError):
+        pass
+    res = gate_c.analyse()
+    info["mode"] = "proof"
+    if res.unsupported:
+        info["mode"] = f"bounded stand-in: native gate runs only (outside the verified subset: {res.unsupported})"
+        stats.unsupported.append(f"{gate_c.REL}::main: {res.unsupported}")
+        run.notes.append(f"main() is outside the verified subset ({res.unsupported}); the native gate runs (schema-violating files in first / second / both positions x plugins) stand in (bounded, not counted as proved)")
         return 0, 0, info
-    calls = []  # (lineno order index, dotted name, node, enclosing for-loops)
-
-    def dotted(f):
-        if isinstance(f, ast.Name):
-            return f.id
-        if isinstance(f, ast.Attribute):
-            return f"{dotted(f.value)}.{f.attr}"
-        return "?"
-
-    order = []
-
-    def visit(stmts, loops):
-        for s in stmts:
-            for node in ast.walk(s) if not isinstance(s, (ast.For, ast.While, ast.If, ast.Try, ast.With)) else []:
-                if isinstance(node, ast.Call):
-                    order.append((dotted(node.func), node, tuple(loops), s))
-            if isinstance(s, (ast.For, ast.While)):
-                for node in ast.walk(s.iter if isinstance(s, ast.For) else s.test):
-                    if isinstance(node, ast.Call):
-                        order.append((dotted(node.func), node, tuple(loops), s))
-                visit(s.body, loops + [s])
-                visit(s.orelse, loops)
-            elif isinstance(s, ast.If):
-                for node in ast.walk(s.test):
-                    if isinstance(node, ast.Call):
-                        order.append((dotted(node.func), node, tuple(loops), s))
-                visit(s.body, loops + [("if", s)])
-                visit(s.orelse, loops + [("else", s)])
-            elif isinstance(s, ast.Try):
-                visit(s.body, loops + [("try", s)])
-                for h in s.handlers:
-                    visit(h.body, loops + [("except", s)])
-                visit(s.orelse, loops)
-                visit(s.finalbody, loops)
-            elif isinstance(s, ast.With):
-                visit(s.body, loops)
-
-    visit(main.body, [])
-    names = [o[0] for o in order]
-    info["call_order"] = names
-    val = [i for i, o in enumerate(order) if o[0].endswith("jsonschema.validate") or o[0] == "validate"]
-    app = [i for i, o in enumerate(order) if o[0].endswith("json_models.append")]
-    crt = [i for i, o in enumerate(order) if o[0].endswith("create_lsp_model")]
-    genr = [i for i, o in enumerate(order) if o[0].endswith(".generate")]
-    ob(len(val) >= 1, "main:gate:validate-call", "main() does not call jsonschema.validate")
-    ob(len(crt) == 1 and len(genr) >= 1, "main:gate:shape", "main() does not have exactly one create_lsp_model call followed by plugin generate", calls=names)
-    if val and crt and genr and app:
-        v, a, c, g = order[val[0]], order[app[0]], crt[0], genr[0]
-        ob(val[0] < app[0] < c < g, "main:gate:dominance", "order validate -> append -> create_lsp_model -> generate is broken", calls=names)
-        # validate and append are unconditional statements of the same for-loop over the model files
-        vloops = [l for l in v[2] if isinstance(l, ast.For)]
-        aloops = [l for l in a[2] if isinstance(l, ast.For)]
-        cond_v = [l for l in v[2] if isinstance(l, tuple)]
-        cond_a = [l for l in a[2] if isinstance(l, tuple)]
-        ob(len(vloops) == 1 and vloops == aloops, "main:gate:same-loop", "validate and append are not in the same loop over the model files", validate_loops=len(vloops), append_loops=len(aloops))
-        ob(not cond_v and not cond_a, "main:gate:unconditional", "validate or append of a model file is conditional (some file can be loaded without validation, or validated without being loaded)")
-        if vloops:
-            loop = vloops[0]
-            skips = [type(x).__name__ for x in ast.walk(loop) if isinstance(x, (ast.Continue, ast.Break))]
-            ob(not skips, "main:gate:no-skip", f"the model-file loop contains {skips}: a file named on the command line can be skipped (neither validated nor merged)")
-            it = ast.unparse(loop.iter)
-            ob(it == "model_files", "main:gate:loop-domain", f"the validation loop iterates {it!r}, not every model file")
-        # validated object is the appended object, appended list is the merged list
-        va = ast.unparse(v[1].args[0]) if v[1].args else "?"
-        aa = ast.unparse(a[1].args[0]) if a[1].args else "?"
-        ob(va == aa, "main:gate:same-object", f"validates {va!r} but appends {aa!r}")
-        ca = ast.unparse(order[c][1].args[0]) if order[c][1].args else "?"
-        ob(ca == "json_models", "main:gate:merged-list", f"create_lsp_model receives {ca!r}, not the list of validated documents")
-        # nothing is written before generate
-        writers = [x for x in names[: g] if any(w in x for w in ("write_text", "write_bytes", ".write", "mkdir", "makedirs", "unlink", "rmtree"))]
-        ob(not writers, "main:gate:no-write-before", f"main() writes before the plugin runs: {writers}")
-        info["schema_arg"] = ast.unparse(v[1].args[1]) if len(v[1].args) > 1 else "?"
+    stats.functions.append(f"{gate_c.REL}::main")
+    stats.solver_s += res.solver_s
+    posts = [o for o in res.obligations if o.expect == "unsat"]
+    reach = [o for o in res.obligations if o.kind == "reach"]
+    stats.reach_total += len(reach)
+    stats.reach_sat += len([o for o in reach if o.answer == "sat"])
+    info.update({"loop_invariants": {str(k): v for k, v in res.invariants.items()}, "houdini_rounds": res.rounds, "events": res.events, "paths": res.paths})
+    if "plugin-run" not in res.events:
+        run.crash("main(): no plugin run (a call of <module>.generate) is reachable: the gate obligations would be vacuous")
+    if not any(o.answer == "sat" and "return" in str(o.meta.get("impl")) for o in reach):
+        run.crash("main(): no normally returning path is reachable under n >= 1 (vacuous)")
+    n = ok = 0
+    seen = set()
+    for o in posts:
+        if o.kind == "loop":
+            # loop obligations of the surviving candidates are all discharged by construction of the fixpoint; count them
+            n += 1
+            ok += 1 if o.answer == "unsat" else 0
+            if o.answer == "unsat":
+                stats.by_backend[o.backend] += 1
+            continue
+        n += 1
+        if o.answer == "unsat":
+            ok += 1
+            stats.by_backend[o.backend] += 1
+            continue
+        if o.answer != "sat":
+            run.undecide(f"{o.name}: {o.answer}")
+            continue
+        lab = o.meta["label"]
+        if lab in seen:
+            continue
+        seen.add(lab)
+        stats.failed.append(o.name)
+        w = gate_c.witness(res.world, o)
+        what = {
+            "validated": "a plugin run / write is reachable on a path on which not every model file has been validated (a schema-violating file does not make the command fail before the plugin runs)",
+            "all-files-in-order": "create_lsp_model / the plugin does not receive exactly the documents of all model files, in command-line order",
+            "model-argument": "a plugin is run without the merged model",
+        }[lab.split(":")[-1]]
+        detail = {"obligation": o.name, "path": o.meta, "smt_witness": {k: v for k, v in w.items() if k != "solver_output"}, "solver_output": w.get("solver_output", o.solver_output)[-1500:], "loop_invariants_found": info["loop_invariants"]}
+        found = False
+        if lab.endswith(":validated"):
+            # replay natively: the solver's witness first (if small), then the small validity vectors
+            cands: List[List[bool]] = []
+            if "n" in w and 1 <= int(w["n"]) <= 4 and not all(w.get("valid", [True])[: int(w["n"])]):
+                cands.append([bool(v) for v in w["valid"][: int(w["n"])]])
+            cands += [[False], [True, False], [False, True], [True, False, True]]
+            tried = []
+            for validity in cands:
+                nat = native_gate_case(validity, fresh_out=":write:" in lab)
+                tried.append(nat)
+                if nat and (nat["exit"] == 0 or nat["files_written"]):
+                    found = True
+                    detail["native_replay"] = nat
+                    what += f"; e.g. model files {nat['models']}: `python -m generator --plugin {nat['plugin']}` exits {nat['exit']} with {len(nat['files_written'])} files written"
+                    break
+            if not found:
+                detail["native_replays_tried"] = tried
+        run.violation(f"main:{lab}", what, detail, found)
+    stats.obligations += n
+    stats.discharged += ok
     return n, ok, info
+
+
+def native_gate_case(validity: List[bool], fresh_out: bool = False, same_basename: bool = False, plugins=("python", "rust", "dotnet")) -> Optional[Dict[str, Any]]:
+    """Run the real command on model files that are valid / schema-violating as given; report exit status and files written.
+    The schema-violating edits are ones the model classes load (only the gate can stop them); edits x plugins are tried until one run
+    ends with exit 0 or files written."""
+    doc = json.load(open(os.path.join(REPO, "generator", "lsp.json"), "rb"))
+    k = len(validity)
+    edits = [
+        ("messageDirection misspelt", lambda p_: (p_["requests"] or p_["notifications"])[0].__setitem__("messageDirection", "sideways")),
+        ("sinceTags holds integers", lambda p_: p_["structures"][0].__setitem__("sinceTags", [1, 2])),
+    ]
+    last = None
+    for ename, edit in edits:
+        for plugin in plugins:
+            tmp = gen.scratch()
+            try:
+                models = []
+                for i, v in enumerate(validity):
+                    # consecutive parts of the committed model (their merge is the committed model)
+                    part = {"metaData": doc["metaData"]}
+                    for sec in ("requests", "notifications", "structures", "enumerations", "typeAliases"):
+                        m = len(doc[sec])
+                        part[sec] = copy.deepcopy(doc[sec][m * i // k : m * (i + 1) // k])
+                    if not v:
+                        edit(part)
+                    d = os.path.join(tmp, f"m{i}")
+                    os.makedirs(d)
+                    pth = os.path.join(d, "lsp.json" if same_basename else f"model{i}.json")
+                    json.dump(part, open(pth, "w"))
+                    models.append(pth)
+                out = os.path.join(tmp, "out")
+                td = os.path.join(tmp, "tests-out")
+                if not fresh_out:
+                    os.makedirs(out)
+                rc, log, dt = gen.run_plugin(plugin, out, models=models, test_dir=td if fresh_out else None)
+                written = sorted(gen.tree_digest(out))[:5] if os.path.isdir(out) else []
+                if fresh_out and os.path.isdir(out) and not written:
+                    written = ["<the output directory itself was created>"]
+                last = {"models": ["valid" if v else f"schema-violating ({ename})" for v in validity], "plugin": plugin, "exit": rc, "files_written": written, "log_tail": log[-300:]}
+                if rc == 0 or last["files_written"]:
+                    return last
+            except Exception:  # noqa
+                pass
+            finally:
+                shutil.rmtree(tmp, ignore_errors=True)
+    return last
 
 
 def run_gate_native(run: Run, plugins: List[str], tmp: str) -> int:
@@ -277,13 +315,6 @@ def run_gate_native(run: Run, plugins: List[str], tmp: str) -> int:
         json.dump(d, open(bad, "w"))
         for plugin in plugins:
             jobs.append((name, plugin, [bad], "first"))
-        # second position: valid first file, invalid second file with the same base name in another directory
-        sub = os.path.join(tmp, f"sub{ei}")
-        os.makedirs(sub, exist_ok=True)
-        second = os.path.join(sub, "lsp.json")
-        json.dump(d, open(second, "w"))
-        jobs.append((name, "python", [os.path.join(REPO, "generator", "lsp.json"), second], "second"))
-
     def one(job):
         name, plugin, models, pos = job
         out = os.path.join(tmp, f"out-{abs(hash((name, plugin, pos)))}")
@@ -299,14 +330,27 @@ def run_gate_native(run: Run, plugins: List[str], tmp: str) -> int:
     for (name, plugin, models, pos), rc, written in results:
         if (rc == 0 or written) and (name, pos) not in seen:
             seen.add((name, pos))
-            where = "" if pos == "first" else " given as the SECOND model file"
             run.violation(
                 f"gate:native:{pos}:{name}",
-                f"a schema-violating model ({name}){where} makes `python -m generator --plugin {plugin}` exit {rc} with {len(written)} files written",
+                f"a schema-violating model ({name}) makes `python -m generator --plugin {plugin}` exit {rc} with {len(written)} files written",
                 {"edit": name, "plugin": plugin, "exit": rc, "files_written": written[:5], "replay": "python -m generator --model <edited lsp.json> --plugin <p> --output-dir <empty dir>"},
                 True,
             )
-    return len(jobs)
+    # positions: the committed model cut into consecutive files, one of them schema-violating (but loadable), with distinct and with
+    # equal base names; the command must fail and write nothing whatever the position
+    cases = [(v, same) for v in ([True, False], [False, True], [True, False, True]) for same in (False, True)]
+    with cf.ThreadPoolExecutor(max_workers=6) as ex:
+        pres = list(ex.map(lambda c: (c, native_gate_case(c[0], same_basename=c[1], plugins=("python", "rust"))), cases))
+    for (validity, same), nat in pres:
+        if nat and (nat["exit"] == 0 or nat["files_written"]):
+            pos = "".join("v" if v else "X" for v in validity) + ("-same-basename" if same else "")
+            run.violation(
+                f"gate:native:position:{pos}",
+                f"model files {nat['models']}" + (" (all named lsp.json, in different directories)" if same else "") + f": `python -m generator --plugin {nat['plugin']}` exits {nat['exit']} with {len(nat['files_written'])} files written",
+                {**nat, "replay": "python -m generator --model <consecutive parts of lsp.json, the marked one edited> --plugin <p> --output-dir <empty dir>"},
+                True,
+            )
+    return len(jobs) + 4 * len(cases)
 
 
 # ---------------------------------------------------------------------------------------------
@@ -565,7 +609,7 @@ def main(argv: List[str]) -> int:
     except Exception as e:  # noqa
         tab(False, "merge:history:raises", f"repeated merge raises {type(e).__name__}: {e}")
     # ---- 5. gate
-    ng, okg, ginfo = gate_obligations(run)
+    ng, okg, ginfo = gate_obligations(run, stats)
     import jsonschema
 
     schema_arg_is_rooted = False
@@ -590,25 +634,45 @@ def main(argv: List[str]) -> int:
     try:
         plugins = ["python", "rust", "dotnet"] + (["testdata"] if run.tier == "thorough" else [])
         gate_runs = run_gate_native(run, plugins, tmp)
+        # end to end: the command given the committed model cut into consecutive files writes what it writes for the single file
+        def cmd_output(models, tag):
+            out = os.path.join(tmp, f"e2e-{tag}")
+            os.makedirs(out)
+            rc, log, dt = gen.run_plugin("python", out, models=models)
+            return rc, gen.tree_digest(out), log
+
+        rc1, one_file, _ = cmd_output([os.path.join(REPO, "generator", "lsp.json")], "one")
+        for nparts in (2, 3):
+            paths = []
+            for i in range(nparts):
+                pth = os.path.join(tmp, f"e2e-part{nparts}-{i}.json")
+                json.dump(part(doc, i / nparts, (i + 1) / nparts), open(pth, "w"))
+                paths.append(pth)
+            rcn, many, logn = cmd_output(paths, f"{nparts}")
+            tab(rc1 == 0 and rcn == 0 and many == one_file, f"merge:main:{nparts}-files", f"`python -m generator --plugin python --model <{nparts} consecutive parts of lsp.json>` (exit {rcn}) does not write what the single-file run writes" + ("" if rcn == 0 else f": {logn[-200:]}"), parts=nparts)
+            gate_runs += 1
     finally:
         shutil.rmtree(tmp, ignore_errors=True)
     run.assume(
         "field values of model objects are opaque in the VCs: `a.f == b.f` is an uninterpreted Boolean per field and pair of owners (equality of lists / nested nodes is Python's and the nested class's own contract)",
         "jsonschema.validate raises iff the document is invalid for the schema object it is given",
-        "the gate's control-flow obligations are structural (AST) facts about main(): validate and append are unconditional statements of one loop over all model files, in that order, before create_lsp_model and the plugin",
+        "the gate: main() and the helpers it calls are executed symbolically over an abstract command line (n >= 1 model files or the packaged one); jsonschema.validate(doc_i, schema) returns iff valid(i) (uninterpreted) and raises otherwise; lists of documents are Seq-valued cells; the loop invariant over the model files is found by Houdini from {cell == documents 0..k-1, cell unchanged, allvalid(k)}; every plugin run / write event carries the obligations 'all files validated on this path' and 'create_lsp_model got all documents in order'. External calls other than the listed pure helpers make the function leave the subset (then only the native gate runs decide, labelled bounded)",
         "merge = concatenation: create_lsp_model is executed symbolically for a list of n >= 1 opaque documents with the Hoare loop rule; invariant: the lists of the object loaded from document 0 equal L_f(0) ++ ... ++ L_f(i-1); obligations loop-init, loop-preserve (arbitrary iteration) and the postcondition at exit. Assumed: LSPModel(**doc) allocates a fresh object whose five lists depend only on doc (L_f uninterpreted, sort Seq Int: one integer per declaration), list.extend / += append in place, + builds a new list, attribute cells never alias, documents are not mutated (checked natively: merge:history:documents-mutated). If the function leaves the subset the structural obligations stand in and the evidence says so",
         "lossless loading rests on the finite schema <-> model-class comparison plus attrs constructor semantics (assumed); read-back is evaluated on the committed model",
     )
     cov = stats.coverage()
     cov.update(
         {
-            "obligations": stats.obligations + n_tab + ng,
-            "discharged": stats.discharged + d_tab + okg,
+            "obligations": stats.obligations + n_tab,
+            "discharged": stats.discharged + d_tab,
             "checker_cmd": "bin/check C18",
             "trusted_base": ["z3/cvc5", "pyvc", "jsonschema", "attrs constructors/converters"],
             "eq_methods_under_contract": len(items),
             "table_obligations": n_tab,
             "gate_obligations": ng,
+            "gate_decided_by": ginfo.get("mode"),
+            "gate_loop_invariants": ginfo.get("loop_invariants"),
+            "gate_events": ginfo.get("events"),
             "gate_native_runs": gate_runs,
             "main_call_order": ginfo.get("call_order"),
             "merge_decided_by": merge_mode,
